@@ -2778,6 +2778,46 @@ var c12trustedDiv = map[string]string{
 	"(*RingBuffer[T]).Offset|%|len(recv.ring)":                           "after the !Empty() guard the ring holds an element, so it has been allocated (PushBack grows an empty ring before storing): len(ring) >= 1 (data-structure invariant of the ring, not proved)",
 }
 
+// c12widen strips value-preserving integer conversions (same or larger width: a non-zero value stays non-zero).
+func c12widen(v ssa.Value) ssa.Value {
+	inner := resolve(v)
+	for {
+		if cv, ok := inner.(*ssa.Convert); ok && c12intBits(cv.Type()) >= c12intBits(cv.X.Type()) && c12intBits(cv.X.Type()) > 0 {
+			inner = resolve(cv.X)
+			continue
+		}
+		return inner
+	}
+}
+
+// c12isPacerBW: v is a call of the function value stored in Pacer.getBandwidth.
+func c12isPacerBW(v ssa.Value, fGet *types.Var) bool {
+	call, ok := v.(*ssa.Call)
+	if !ok || fGet == nil || call.Call.StaticCallee() != nil || call.Call.IsInvoke() {
+		return false
+	}
+	u, ok := resolve(call.Call.Value).(*ssa.UnOp)
+	if !ok {
+		return false
+	}
+	fa, ok := u.X.(*ssa.FieldAddr)
+	if !ok {
+		return false
+	}
+	f := structField(fa.X.Type(), fa.Field)
+	return f != nil && f.Origin() == fGet.Origin()
+}
+
+func c12badProvider(goodProviders map[*ssa.Function]bool) string {
+	bad := ""
+	for f, ok := range goodProviders {
+		if !ok {
+			bad = c12name(f)
+		}
+	}
+	return bad
+}
+
 func (x *c12ctx) ruleR6d(goodProviders map[*ssa.Function]bool) {
 	c, p := x.c, x.p
 	const r6d = "C12.R6d every integer division in congestion/bbr and congestion/common with a non-constant divisor has a divisor proved non-zero: by a dominating guard on the same value, by the linear prover, by a callee that never returns 0, for a parameter at every call site, for the pacer's bandwidth by R3 on its provider; or it is a named entry of the justification table (reported as trusted, not proved)"
@@ -2800,14 +2840,7 @@ func (x *c12ctx) ruleR6d(goodProviders map[*ssa.Function]bool) {
 			org := c12origin(fn)
 			base := "C12.R6d:" + c12name(org) + ":" + bo.Op.String() + c12expr(bo.Y, 0)
 			// divisor derived from a parameter: one obligation per call site
-			inner := resolve(bo.Y)
-			for {
-				if cv, ok := inner.(*ssa.Convert); ok && c12intBits(cv.Type()) >= c12intBits(cv.X.Type()) && c12intBits(cv.X.Type()) > 0 {
-					inner = resolve(cv.X)
-					continue
-				}
-				break
-			}
+			inner := c12widen(bo.Y)
 			if pa, ok := inner.(*ssa.Parameter); ok && x.k.liftable(fn) {
 				idx := 0
 				for i, q := range fn.Params {
@@ -2831,6 +2864,12 @@ func (x *c12ctx) ruleR6d(goodProviders map[*ssa.Function]bool) {
 					}
 					key := x.keys.get("C12.R6d:" + c12name(c12origin(caller)) + "→" + fn.Name() + "(" + first + ",…)")
 					var trail []string
+					// the argument is the pacer's bandwidth (the division was extracted into a helper): R3 on the provider
+					if c12isPacerBW(c12widen(arg), fGet) {
+						bad := c12badProvider(goodProviders)
+						c.Req(bad == "" && len(goodProviders) > 0, key, r6d, p.InstrPos(cs), "the BBR bandwidth provider "+bad+" is not proved to return a positive value (R3)")
+						continue
+					}
 					if x.k.nonZero(caller, cs, arg, 2, &trail) {
 						c.OK(key, r6d, p.InstrPos(cs))
 						continue
@@ -2844,19 +2883,10 @@ func (x *c12ctx) ruleR6d(goodProviders map[*ssa.Function]bool) {
 				return
 			}
 			// the pacer's bandwidth: a call of the function stored in Pacer.getBandwidth
-			if call, ok := inner.(*ssa.Call); ok && fGet != nil && call.Call.StaticCallee() == nil && !call.Call.IsInvoke() {
-				if u, ok := resolve(call.Call.Value).(*ssa.UnOp); ok {
-					if fa, ok := u.X.(*ssa.FieldAddr); ok && structField(fa.X.Type(), fa.Field).Origin() == fGet.Origin() {
-						bad := ""
-						for f, ok := range goodProviders {
-							if !ok {
-								bad = c12name(f)
-							}
-						}
-						c.Req(bad == "" && len(goodProviders) > 0, x.keys.get(base), r6d, p.InstrPos(in), "the BBR bandwidth provider "+bad+" is not proved to return a positive value (R3)")
-						return
-					}
-				}
+			if c12isPacerBW(inner, fGet) {
+				bad := c12badProvider(goodProviders)
+				c.Req(bad == "" && len(goodProviders) > 0, x.keys.get(base), r6d, p.InstrPos(in), "the BBR bandwidth provider "+bad+" is not proved to return a positive value (R3)")
+				return
 			}
 			var trail []string
 			if x.k.nonZero(fn, in, bo.Y, 0, &trail) {
